@@ -11,7 +11,7 @@ Definition f_fmt_simple (tab : list (float * str)) :=
 Definition f_fmt_inter (tab : list (float * str)) :=
   @fmt_inter float FNum float_fmt_prec (float_fmt_short tab).
 Definition f_fmt_term (tab : list (float * str)) :=
-  @fmt_term float FNum (float_fmt_short tab).
+  @fmt_term float FNum float_fmt_prec (float_fmt_short tab).
 Definition f_to_polynomial_string := @to_polynomial_string float FNum float_fmt_prec.
 Definition f_parse_simple := @parse_simple float FNum uclass_tab.
 Definition f_parse_inter := @parse_inter float FNum uclass_tab.
